@@ -24,6 +24,16 @@ def model_nl():
     return m.nl()
 
 
+def model_nl_int():
+    """the same model with an integer second variable: the scripted answer x1 = 0.5 is then a non-integral integer variable"""
+    m = nlmodel.Model([(0, 10, False, 1), (0, 10, True, 1)], acons=[(None, {0: 1, 1: 1}, -INF, 5)],
+                      obj=('max', None, {0: 1, 1: 2}))
+    return m.nl()
+
+
+ROUND_OF = {5: 7, 6: 2}      # px == 5 / 6: mip:round=7 (round, "modify solve_result", message) / 2 on the integer model
+
+
 def build():
     jobs = [(os.path.join(vbuild.VERIF, 'checks/C10/c10_harness.cc'), 'plain0', (), '')]
     jobs += [(s, 'plain', (), '') for s in vbuild.LIBMP_SRCS]
@@ -128,9 +138,11 @@ def script_of(case):
     code, px, py, po, mip = case
     # px == 2: a primal answer that violates the row x0 + x1 <= 5 (used to observe whether the automatic solution check ran)
     # px == 3: a complete feasible answer plus two alternative solutions (written to <sol:stub>N.sol)
+    # px == 5, 6: mip:round=7 / 2 with a non-integral value of an integer variable (the rounding step runs between the backend's
+    #   report and the .sol file; whatever it does to values and message, the code written is the code the backend reported)
     # px == 4: IIS requested (alg:iisfind=1); the scripted IIS run reports the status code+1000 -> folded to IIS_CODE(code)
-    return {'code': code, 'msg': 'scripted result', 'altsols': 2 if px == 3 else 0, 'iis_code': iis_code(code) if px == 4 else 'none', 'iis': 'ramp' if px == 4 else 'none', 'x': (X_VIOL if px == 2 else X_SPEC) if px else 'none', 'y': Y_SPEC if py else 'none',
-            'obj': OBJ_SPEC if po else 'none', 'ismip': mip, 'rays': 1}
+    return {'code': code, 'msg': 'scripted result', 'altsols': 2 if px == 3 else 0, 'iis_code': iis_code(code) if px == 4 else 'none', 'iis': 'ramp' if px == 4 else 'none', 'x': (X_VIOL if px == 2 else '1,0.5' if px in ROUND_OF else X_SPEC) if px else 'none', 'y': Y_SPEC if py else 'none',
+            'obj': OBJ_SPEC if po else 'none', 'ismip': 1 if px in ROUND_OF else mip, 'rays': 1}
 
 
 def iis_code(code):
@@ -146,9 +158,10 @@ def observe(binary, workdir, nl, case):
     if alt:
         for f in os.listdir(workdir) if os.path.isdir(workdir) else []:
             if f.startswith('alt'): os.remove(os.path.join(workdir, f))
-    r = vdriverlib.run(binary, workdir, nl_text=nl, script=script_of(case),
+    r = vdriverlib.run(binary, workdir, nl_text=model_nl_int() if case[1] in ROUND_OF else nl, script=script_of(case),
                        env_opts={'vdriver_options': 'sol:stub=%s' % os.path.join(workdir, 'alt')} if alt else
-                       {'vdriver_options': 'alg:iisfind=1'} if case[1] == 4 else None)
+                       {'vdriver_options': 'alg:iisfind=1'} if case[1] == 4 else
+                       {'vdriver_options': 'mip:round=%d' % ROUND_OF[case[1]]} if case[1] in ROUND_OF else None)
     if case[1] == 4: o_calls = [c.get('op') for c in (r.get('dump') or {}).get('calls', [])]
     o = {'rc': r['rc'], 'sol': None, 'err': r['err'][-300:]}
     if case[1] == 4: o['iis_run'] = 'ComputeIIS' in o_calls
@@ -283,6 +296,24 @@ def judge_bang(ranges, out):
         elif category(hit[0][2]) != cat:
             f.append(('C10 -! table describes range %d-%d as a different class than documented' % (lo, hi),
                       {'documented': desc, 'listed': hit[0][2]}))
+    # order: a code or sub-range is listed under the header of the documented range that contains it (as in the documented
+    # table: "400-449 limit, feasible ..." then "402 time limit, feasible solution"), never under the preceding class
+    rows = []
+    for line in out.splitlines():
+        m = re.match(r'^\s*(\d+)\s*-\s*(\d+)\s+(\S.*?)\s*$', line)
+        if m: rows.append((int(m.group(1)), int(m.group(2)), m.group(3))); continue
+        m = re.match(r'^\s*(\d+)\s+(\S.*?)\s*$', line)
+        if m: rows.append((int(m.group(1)), int(m.group(1)), m.group(2)))
+    doc = [(lo, hi) for lo, hi, _, _ in ranges]
+    cur = None
+    for a, b, d in rows:
+        if (a, b) in doc: cur = (a, b); continue
+        home = [r for r in doc if r[0] <= a and b <= r[1]]
+        if home and cur != home[0]:
+            f.append(('C10 -! table lists a code of range %d-%d under the header of %s (%s)' % (
+                          home[0][0], home[0][1], 'range %d-%d' % cur if cur else 'no range',
+                          'the first code of its range' if a == home[0][0] else 'a later code of its range'),
+                      {'row': [a, b, d], 'listed_under': cur, 'table': out[-1500:]}))
     return f
 
 
@@ -305,6 +336,8 @@ def self_test(orc):
     if orc.predicate('IsProblemSolvedOrFeasible', 449) is not True or orc.predicate('IsProblemSolvedOrFeasible', 450) is not False:
         bad.append('reference IsProblemSolvedOrFeasible wrong at 449/450')
     if not judge_bang(orc.ranges, '\t  0- 99\tsolved: x\n'): bad.append('-! judge accepts a table with one range')
+    if not any('under the header' in g[0] for g in judge_bang(orc.ranges, '\t350-399\tunbounded, no feasible solution\n\t400\tlimit x\n\t400-449\tlimit, feasible: y\n')):
+        bad.append('-! judge accepts a code listed before the header of its range')
     return bad
 
 
@@ -336,6 +369,7 @@ def _main(chk, tier, binary):
     cases += [(code, 2, 1, 1, mip) for mip in mips for code in range(LO, HI + 1)]
     cases += [(code, 3, 1, 1, mip) for mip in mips for code in range(LO, HI + 1)]
     cases += [(code, 4, 1, 1, mip) for mip in mips for code in range(LO, HI + 1)]
+    cases += [(code, px, 1, 1, 1) for px in sorted(ROUND_OF) for code in range(LO, HI + 1)]
     nw = vcheck.NCPU
     jobs = [(binary, i, nl, cases[i::nw], ranges) for i in range(nw)]
     with multiprocessing.get_context('fork').Pool(nw) as pool:
